@@ -20,7 +20,7 @@ from synth.syntax.automata.dfa import DFA
 from synth.syntax.grammars.grammar import DerivableProgram, NGram
 from synth.syntax.grammars.tagged_det_grammar import ProbDetGrammar
 from synth.syntax.program import Constant, Primitive, Variable
-from synth.syntax.type_system import Arrow, Type, UnknownType
+from synth.syntax.type_system import Type, UnknownType
 from synth.syntax.grammars.det_grammar import DetGrammar
 
 T = TypeVar("T")
@@ -404,11 +404,13 @@ class TTCFG(
             size, future = state[1][1]
             if size > max_size:
                 return False, (0, 0)
-            if not derivation.type.is_instance(Arrow):
+            # arguments taken at this non-terminal: a primitive passed as a value or
+            # partially applied takes fewer than its type declares
+            nargs = len(derivation.type.ends_with(state[0]) or [])
+            if nargs == 0:
                 if future > 0:
                     return size + future <= max_size, (size + 1, future - 1)
                 return size + 1 + future <= max_size, (size + 1, future)
-            nargs = len(derivation.type.arguments())
             if future > 0:
                 return size + nargs + future <= max_size, (size + 1, future + nargs - 1)
             return size + nargs + 1 + future <= max_size, (size + 1, future + nargs)
